@@ -79,7 +79,7 @@ func (e *Engine) readerState(st *State, key *smt.Term) (pos, avail *smt.Term) {
 	c := e.C
 	pos = e.ghostGet(st, gPos, key)
 	avail = e.ghostGet(st, pAvail, key)
-	e.assume(st, c.And(bvle(c, c.BVLit64(0, 64), pos), bvle(c, pos, avail), bvle(c, avail, c.BVLit64(1<<62, 64))))
+	e.assume(st, c.And(bvle(c, c.BVLit64(0, 64), pos), bvle(c, pos, avail), bvle(c, avail, c.BVLit64(sizeBound, 64))))
 	return
 }
 
@@ -100,7 +100,7 @@ func (e *Engine) readN(st *State, key, n *smt.Term, hint string) (ok, start *smt
 func (e *Engine) writerCount(st *State, key *smt.Term) *smt.Term {
 	c := e.C
 	cnt := e.ghostGet(st, gCount, key)
-	e.assume(st, c.And(bvle(c, c.BVLit64(0, 64), cnt), bvle(c, cnt, c.BVLit64(1<<62, 64))))
+	e.assume(st, c.And(bvle(c, c.BVLit64(0, 64), cnt), bvle(c, cnt, c.BVLit64(sizeBound, 64))))
 	return cnt
 }
 
@@ -224,7 +224,7 @@ func init() {
 			st.Heap[name] = c.Store(arr, ref, e.ghostGet(st, gWData, key))
 			n := bvsub(c, cnt, pos0)
 			cp := c.Fresh("buf.cap", smt.BV(64))
-			e.assume(st, c.And(bvle(c, n, cp), bvle(c, cp, c.BVLit64(1<<62, 64))))
+			e.assume(st, c.And(bvle(c, n, cp), bvle(c, cp, c.BVLit64(sizeBound, 64))))
 			e.note("(*bytes.Buffer).Bytes returns a view modelled as a copy (later writes to the buffer are not reflected in the slice)")
 			return Val{Typ: rt, Terms: []*smt.Term{ref, pos0, n, cp}}
 		},
@@ -273,6 +273,102 @@ func init() {
 		"math/bits.LeadingZeros32": func(e *Engine, f *frame, st *State, args []Val, rt types.Type, pos string) Val {
 			return Val{Typ: rt, Terms: []*smt.Term{e.leadingZeros(args[0].Terms[0], 32)}}
 		},
+	}
+	callModels["reflect.TypeOf"] = func(e *Engine, f *frame, st *State, args []Val, rt types.Type, pos string) Val {
+		c := e.C
+		v := e.havocResult(st, "typeof", rt)
+		// reflect.TypeOf(x) is nil exactly for a nil interface value
+		e.assume(st, c.Eq(c.Eq(v.Terms[0], c.IntLit(0)), c.Eq(args[0].Terms[0], c.IntLit(0))))
+		e.assume(st, c.Implies(c.Not(c.Eq(v.Terms[0], c.IntLit(0))), c.Not(c.Eq(v.Terms[1], c.IntLit(0)))))
+		return v
+	}
+	callModels["reflect.MakeSlice"] = func(e *Engine, f *frame, st *State, args []Val, rt types.Type, pos string) Val {
+		c := e.C
+		ln, cp := args[1].Terms[0], args[2].Terms[0]
+		e.oblige(st, "alloc", "", c.And(bvle(c, c.BVLit64(0, 64), ln), bvle(c, ln, cp)), pos, "reflect.MakeSlice: 0 <= len <= cap")
+		return e.havocResult(st, "makeslice", rt)
+	}
+	callModels["github.com/pierrec/lz4/v4.CompressBlockBound"] = func(e *Engine, f *frame, st *State, args []Val, rt types.Type, pos string) Val {
+		c := e.C
+		n := args[0].Terms[0]
+		return Val{Typ: rt, Terms: []*smt.Term{bvadd(c, bvadd(c, n, c.Op("bvsdiv", smt.BV(64), n, c.BVLit64(255, 64))), c.BVLit64(16, 64))}}
+	}
+	callModels["github.com/pierrec/lz4/v4.CompressBlock"] = func(e *Engine, f *frame, st *State, args []Val, rt types.Type, pos string) Val {
+		c := e.C
+		src, dst := args[0], args[1]
+		errv, okc := e.maybeError(st, errorType(), "lz4c")
+		n := c.Fresh("lz4c.n", smt.BV(64))
+		bound := bvadd(c, bvadd(c, src.Terms[2], c.Op("bvsdiv", smt.BV(64), src.Terms[2], c.BVLit64(255, 64))), c.BVLit64(16, 64))
+		e.assume(st, c.And(bvle(c, c.BVLit64(0, 64), n), bvle(c, n, dst.Terms[2]),
+			c.Implies(bvle(c, bound, dst.Terms[2]), c.And(okc, bvle(c, c.BVLit64(1, 64), n))),
+			c.Implies(c.Not(okc), c.Eq(n, c.BVLit64(0, 64)))))
+		e.frameCheckRef(f, st, dst.Terms[0], "elem:uint8", pos)
+		name := elemName(types.Typ[types.Uint8], 0)
+		arr := e.heapArr(st, name, smt.Array(smt.Int, bytesInner))
+		srcInner := c.Select(arr, src.Terms[0])
+		st.Heap[name] = c.Store(arr, dst.Terms[0], c.App("arr.splice."+sortTag(smt.BV(8)), bytesInner, c.Select(arr, dst.Terms[0]), dst.Terms[1],
+			c.App("lz4.block", bytesInner, srcInner, src.Terms[1], src.Terms[2]), c.BVLit64(0, 64), n))
+		return Val{Typ: rt, Terms: []*smt.Term{n, errv.Terms[0], errv.Terms[1]}}
+	}
+	callModels["github.com/pierrec/lz4/v4.UncompressBlock"] = func(e *Engine, f *frame, st *State, args []Val, rt types.Type, pos string) Val {
+		c := e.C
+		src, dst := args[0], args[1]
+		errv, okc := e.maybeError(st, errorType(), "lz4d")
+		n := c.Fresh("lz4d.n", smt.BV(64))
+		z := c.BVLit64(0, 64)
+		e.assume(st, c.And(bvle(c, z, n), bvle(c, n, dst.Terms[2]),
+			c.Implies(c.Eq(src.Terms[2], z), c.And(okc, c.Eq(n, z))),
+			c.Implies(c.Not(okc), c.Eq(n, z))))
+		e.frameCheckRef(f, st, dst.Terms[0], "elem:uint8", pos)
+		name := elemName(types.Typ[types.Uint8], 0)
+		arr := e.heapArr(st, name, smt.Array(smt.Int, bytesInner))
+		st.Heap[name] = c.Store(arr, dst.Terms[0], c.Fresh("lz4d.out", bytesInner))
+		return Val{Typ: rt, Terms: []*smt.Term{n, errv.Terms[0], errv.Terms[1]}}
+	}
+	callModels["github.com/golang/snappy.Encode"] = func(e *Engine, f *frame, st *State, args []Val, rt types.Type, pos string) Val {
+		if v, ok := args[0].Terms[0].BVValue(); ok && v.Sign() != 0 {
+			panic(reject("snappy.Encode with non-nil dst"))
+		}
+		return e.havocResult(st, "snappy.enc", rt)
+	}
+	callModels["github.com/golang/snappy.Decode"] = func(e *Engine, f *frame, st *State, args []Val, rt types.Type, pos string) Val {
+		return e.havocResult(st, "snappy.dec", rt)
+	}
+	callModels["(*bytes.Buffer).ReadFrom"] = func(e *Engine, f *frame, st *State, args []Val, rt types.Type, pos string) Val {
+		c := e.C
+		e.nilCheck(st, args[0], pos, "nil *bytes.Buffer")
+		key := args[0].Terms[0]
+		r := args[1]
+		e.oblige(st, "nil", "", c.Not(c.Eq(r.Terms[0], c.IntLit(0))), pos, "ReadFrom nil reader")
+		rkey := streamKey(r)
+		pos0, avail := e.readerState(st, rkey)
+		cnt := e.writerCount(st, key)
+		errv, okc := e.maybeError(st, errorType(), "readfrom")
+		k := c.Fresh("readfrom.k", smt.BV(64))
+		e.assume(st, c.And(bvle(c, c.BVLit64(0, 64), k), bvle(c, bvadd(c, pos0, k), avail), c.Implies(okc, c.Eq(bvadd(c, pos0, k), avail))))
+		e.ghostSet(st, gPos, rkey, bvadd(c, pos0, k))
+		e.ghostSet(st, gWData, key, c.App("arr.splice."+sortTag(smt.BV(8)), bytesInner, e.ghostGet(st, gWData, key), cnt, e.ghostGet(st, pData, rkey), pos0, k))
+		e.ghostSet(st, gCount, key, bvadd(c, cnt, k))
+		return Val{Typ: rt, Terms: []*smt.Term{k, errv.Terms[0], errv.Terms[1]}}
+	}
+	callModels["(*bytes.Buffer).WriteTo"] = func(e *Engine, f *frame, st *State, args []Val, rt types.Type, pos string) Val {
+		c := e.C
+		e.nilCheck(st, args[0], pos, "nil *bytes.Buffer")
+		key := args[0].Terms[0]
+		w := args[1]
+		e.oblige(st, "nil", "", c.Not(c.Eq(w.Terms[0], c.IntLit(0))), pos, "WriteTo nil writer")
+		wkey := streamKey(w)
+		cnt := e.writerCount(st, key)
+		pos0 := e.ghostGet(st, gPos, key)
+		e.assume(st, c.And(bvle(c, c.BVLit64(0, 64), pos0), bvle(c, pos0, cnt)))
+		wcnt := e.writerCount(st, wkey)
+		errv, okc := e.maybeError(st, errorType(), "writeto")
+		k := c.Fresh("writeto.k", smt.BV(64))
+		e.assume(st, c.And(bvle(c, c.BVLit64(0, 64), k), bvle(c, bvadd(c, pos0, k), cnt), c.Implies(okc, c.Eq(bvadd(c, pos0, k), cnt))))
+		e.ghostSet(st, gPos, key, bvadd(c, pos0, k))
+		e.ghostSet(st, gWData, wkey, c.App("arr.splice."+sortTag(smt.BV(8)), bytesInner, e.ghostGet(st, gWData, wkey), wcnt, e.ghostGet(st, gWData, key), pos0, k))
+		e.ghostSet(st, gCount, wkey, bvadd(c, wcnt, k))
+		return Val{Typ: rt, Terms: []*smt.Term{k, errv.Terms[0], errv.Terms[1]}}
 	}
 	for _, order := range []string{"bigEndian", "littleEndian"} {
 		little := order == "littleEndian"
